@@ -43,6 +43,16 @@ fn array_push_delta(res: &mut Vec<u8>, time: isize) {
     }
 }
 
+/// clamp to MIDI data byte (0..=127)
+fn midi_data7(v: isize) -> u8 {
+    v.max(0).min(127) as u8
+}
+
+/// clamp to MIDI channel (0..=15)
+fn midi_ch(v: isize) -> u8 {
+    v.max(0).min(15) as u8
+}
+
 fn generate_track(track: &Track) -> Vec<u8> {
     let mut res: Vec<u8> = vec![];
     let mut timepos = 0;
@@ -55,9 +65,9 @@ fn generate_track(track: &Track) -> Vec<u8> {
                 // note on
                 array_push_delta(&mut res, e.time - timepos);
                 timepos = e.time;
-                res.push(0x90 + e.channel as u8);
-                res.push(note_no as u8); // note_no
-                res.push(note_vel as u8); // velocity
+                res.push(0x90 + midi_ch(e.channel));
+                res.push(midi_data7(note_no)); // note_no
+                res.push(midi_data7(note_vel)); // velocity
             },
             EventType::NoteOff => {
                 let note_no = e.v1;
@@ -65,22 +75,22 @@ fn generate_track(track: &Track) -> Vec<u8> {
                 let note_vel = e.v3;
                 array_push_delta(&mut res, e.time - timepos);
                 timepos = e.time;
-                res.push(0x80 + e.channel as u8);
-                res.push(note_no as u8);
-                res.push(note_vel as u8);
+                res.push(0x80 + midi_ch(e.channel));
+                res.push(midi_data7(note_no));
+                res.push(midi_data7(note_vel));
             },
             EventType::Voice => {
                 array_push_delta(&mut res, e.time - timepos);
                 timepos = e.time;
-                res.push(0xC0 + e.channel as u8);
-                res.push(e.v1 as u8);
+                res.push(0xC0 + midi_ch(e.channel));
+                res.push(midi_data7(e.v1));
             },
             EventType::ControllChange => {
                 array_push_delta(&mut res, e.time - timepos);
                 timepos = e.time;
-                res.push(0xB0 + e.channel as u8);
-                res.push(e.v1 as u8);
-                res.push(e.v2 as u8);
+                res.push(0xB0 + midi_ch(e.channel));
+                res.push(midi_data7(e.v1));
+                res.push(midi_data7(e.v2));
             },
             EventType::Meta => {
                 array_push_delta(&mut res, e.time - timepos);
@@ -111,13 +121,13 @@ fn generate_track(track: &Track) -> Vec<u8> {
                 }
             },
             EventType::PitchBend => {
-                let v = e.v1;
+                let v = e.v1.max(0).min(16383); // 14bit
                 let msb = ((v >> 7) & 0x7F) as u8;
                 let lsb = ((v >> 0) & 0x7F) as u8;
                 // println!("PB={}(0x{:02x}{:02x})", v, msb, lsb);
                 array_push_delta(&mut res, e.time - timepos);
                 timepos = e.time;
-                res.push(0xE0 + e.channel as u8);
+                res.push(0xE0 + midi_ch(e.channel));
                 res.push(lsb);
                 res.push(msb);
             },
@@ -128,17 +138,17 @@ fn generate_track(track: &Track) -> Vec<u8> {
                 // RPN MSB
                 array_push_delta(&mut res, e.time - timepos);
                 timepos = e.time;
-                res.push(0xB0 + e.channel as u8);
+                res.push(0xB0 + midi_ch(e.channel));
                 res.push(MIDI_RPN_MSB);
                 res.push(0);
                 // RPN LSB
                 res.push(0);
-                res.push(0xB0 + e.channel as u8);
+                res.push(0xB0 + midi_ch(e.channel));
                 res.push(MIDI_RPN_LSB);
                 res.push(0);
                 // Data Entry MSB
                 res.push(0);
-                res.push(0xB0 + e.channel as u8);
+                res.push(0xB0 + midi_ch(e.channel));
                 res.push(MIDI_DATA_ENTRY_MSB);
                 res.push(range);
             },
